@@ -15,11 +15,24 @@ echo "demo clean=$c mutated=$m ($(tail -1 $wt/.demo_mut.log | cut -c1-200))"
 files=$(cd $wt && git diff --name-only | tr '\n' ' ')
 echo "files: $files"
 if [ "${SKIP_TESTS:-0}" != "1" ]; then
-  # the baseline's failing tests are the network-dependent sokoban/registration ones: compare failure sets
-  (cd $wt && PYTHONPATH=$wt timeout 3000 /venv/bin/python -m pytest -q -p no:cacheprovider -n 8 --timeout=900 --continue-on-collection-errors -q 2>&1 | grep -E "^(FAILED|ERROR)" | sed 's/ - .*//' | sort) > $wt/.fail.txt
-  if [ -f .work/baseline_fail.txt ]; then
+  # the baseline's failing tests are the network-dependent sokoban/registration ones: compare failure sets.
+  # A change confined to one environment package can only reach the tests that import that package: its own tests, the top-level
+  # suites (wrappers/specs/registration/tree_utils/env), jumanji/testing, jumanji/training and environments/commons - those are run
+  # ("targeted"); a change anywhere else gets the whole suite ("full").
+  scope=full; paths=""
+  pk=$(cd $wt && git diff --name-only | sed -E 's#^(jumanji/environments/[a-z_]+/[a-z_0-9]+)/.*#\1#' | sort -u)
+  if [ "${FULL_TESTS:-0}" != "1" ] && ! echo "$pk" | grep -qvE '^jumanji/environments/(logic|packing|routing)/[a-z_0-9]+$'; then
+    scope=targeted; paths="$pk jumanji/env_test.py jumanji/wrappers_test.py jumanji/specs_test.py jumanji/registration_test.py jumanji/tree_utils_test.py jumanji/types_test.py jumanji/testing jumanji/training jumanji/environments/commons"
+    paths=$(cd $wt && for q in $paths; do [ -e $q ] && echo $q; done | tr '\n' ' ')
+  fi
+  (cd $wt && PYTHONPATH=$wt timeout 3000 /venv/bin/python -m pytest -q -p no:cacheprovider -n ${TEST_N:-8} --timeout=900 --continue-on-collection-errors -q $paths > $wt/.pytest.log 2>&1)
+  grep -E "^(FAILED|ERROR)" $wt/.pytest.log | sed 's/ - .*//' | sort > $wt/.fail.txt
+  summary=$(grep -E "[0-9]+ passed" $wt/.pytest.log | tail -1)
+  if [ -z "$summary" ]; then
+    echo "tests: INCOMPLETE (no pytest summary line; scope=$scope)"
+  elif [ -f .work/baseline_fail.txt ]; then
     d=$(diff .work/baseline_fail.txt $wt/.fail.txt | grep '^>' | head -5)
-    [ -z "$d" ] && echo "tests: same failure set as baseline ($(wc -l < $wt/.fail.txt) network failures)" || echo "tests: NEW FAILURES: $d"
+    [ -z "$d" ] && echo "tests: same failure set as baseline ($scope run: $summary; $(wc -l < $wt/.fail.txt) failures, all among the baseline's 11 network failures)" || echo "tests: NEW FAILURES: $d"
   else
     echo "tests: no baseline file"; cat $wt/.fail.txt | head
   fi
